@@ -190,6 +190,7 @@ package participle
 
 // !expr: the child runs on a branch that is never adopted; on success exactly one token is taken with Next.
 //@ func (*negation).Parse [C01 C02 C10 C06 C08]
+//@   before call node.Parse#1: assert arg1.lookahead == ctx.lookahead && arg1.caseInsensitive == ctx.caseInsensitive [C13 C01]
 //@   before call node.Parse#1: assert arg1 != ctx && fresh(arg1) && arg2 == parent [C02 C01]
 //@   frame-tags C09
 //@   implements node.Parse
@@ -200,6 +201,7 @@ package participle
 
 // (?= expr) / (?! expr): never consumes, never defers.
 //@ func (*lookaheadGroup).Parse [C01 C02 C06]
+//@   before call node.Parse#1: assert arg1.lookahead == ctx.lookahead && arg1.caseInsensitive == ctx.caseInsensitive [C13 C01]
 //@   before call node.Parse#1: assert arg1 != ctx && fresh(arg1) && arg2 == parent [C02 C01]
 //@   frame-tags C09
 //@   implements node.Parse
@@ -297,6 +299,7 @@ package participle
 // Ordered choice: alternatives in index order, each on a fresh branch; the first that matches is adopted;
 // a failing one commits the whole choice only through Stop.
 //@ func (*disjunction).Parse [C01 C02 C06 C13]
+//@   before call node.Parse#1: assert arg1.lookahead == ctx.lookahead && arg1.caseInsensitive == ctx.caseInsensitive [C13 C01]
 //@   frame-tags C09
 //@   implements node.Parse
 //@   use wfDisjunction(d) at entry
@@ -324,6 +327,9 @@ package participle
 //@   let pa2 *parseContext = arg1 after call node.Parse#2
 //@   let pa3 *parseContext = arg1 after call node.Parse#3
 //@   ensures @onCtx g.mode == groupMatchNonEmpty || g.mode == groupMatchOnce ==> pa1 == ctx || pa2 == ctx || pa3 == ctx [C13 C01]
+//@   before call node.Parse#1: assert arg1.lookahead == ctx.lookahead && arg1.caseInsensitive == ctx.caseInsensitive [C13 C01]
+//@   before call node.Parse#2: assert arg1.lookahead == ctx.lookahead && arg1.caseInsensitive == ctx.caseInsensitive [C13 C01]
+//@   before call node.Parse#3: assert arg1.lookahead == ctx.lookahead && arg1.caseInsensitive == ctx.caseInsensitive [C13 C01]
 //@   let ge1 error = result1 after call node.Parse#1 default nil
 //@   let ge2 error = result1 after call node.Parse#2 default nil
 //@   let ge3 error = result1 after call node.Parse#3 default nil
@@ -333,6 +339,7 @@ package participle
 //@   after loop 1: assert ctx.lookahead >= 0 ==> (ge1 != nil ==> gc1 - ctx.cursor <= ctx.lookahead) && (ge2 != nil ==> gc2 - ctx.cursor <= ctx.lookahead) && (ge3 != nil ==> gc3 - ctx.cursor <= ctx.lookahead) [C13 C01]
 //@   use wfGroup(g) at entry
 //@   loop 1 invariant 0 <= matches && g.expr != nil && wf(g.expr) && errOK(ctx.deepestError)
+//@   loop 1 invariant @cap max == 1 || max == MaxIterations [C13 C01]
 //@   loop 1 invariant ctx.tokens == old(ctx.tokens) && ctx.elide == old(ctx.elide)
 //@   loop 1 invariant pcInv(ctx) && ctx.rawCursor >= old(ctx.rawCursor) && ctx.cursor >= old(ctx.cursor)
 //@   loop 1 invariant (ctx.apply == old(ctx.apply) || fresh(ctx.apply)) && len(ctx.apply) >= len(old(ctx.apply))
@@ -359,6 +366,10 @@ package participle
 //@   let ie bool = true after call (*participle.strct).maybeInjectEndToken#1 default false
 //@   let it bool = true after call (*participle.strct).maybeInjectTokens#1 default false
 //@   ensures @injected err == nil && out != nil ==> ie && it [C11]
+// ... and before the captures are applied (a capture into a field called Tokens keeps what it captured)
+//@   let ita1 bool = it after call (*participle.parseContext).Apply#1 default true
+//@   let ita2 bool = it after call (*participle.parseContext).Apply#2 default true
+//@   ensures @injectedFirst err == nil && out != nil ==> ita1 && ita2 [C11 C01]
 //@   before call (*participle.strct).maybeInjectStartToken#1: assert token == &ctx.tokens[ctx.nextCursor] && ctx.rawCursor == old(ctx.rawCursor) [C11]
 //@   before call (*participle.strct).maybeInjectEndToken#1: assert token == &ctx.tokens[ctx.rawCursor] && ctx.rawCursor >= start [C11]
 //@   before call (*participle.strct).maybeInjectTokens#1: assert tokens == ctx.tokens[start:ctx.rawCursor] && start == old(ctx.rawCursor) [C11]
@@ -496,15 +507,16 @@ package participle
 
 // ParseFromLexer: whatever path is taken, the caller's lexer ends up at the position the parse reached
 // (the first token it did not consume), and a parse error still comes with a non-nil AST.
-//@ func (*Parser[G]).ParseFromLexer [C15 C06 C01]
+//@ func (*Parser[G]).ParseFromLexer [C15 C06 C01 C10]
 //@   frame-tags C09
 //@   requires lex != nil && plInv(lex)
 //@   modifies *lex
 //@   ensures plInv(lex) && lex.tokens == old(lex.tokens) && lex.elide == old(lex.elide)
 //@   ensures errOK(result1) [C06]
+//@   ensures @astNonNil result0 != nil [C06]
 //@   requires @assumed forall(k, 0, len(options), options[k] != nil)
-//@   at return 2: assert *lex == ctx.PeekingLexer [C15]
-//@   at return 3: assert *lex == ctx.PeekingLexer [C15]
+//@   at return 2: assert *lex == ctx.PeekingLexer [C15 C10]
+//@   at return 3: assert *lex == ctx.PeekingLexer [C15 C10]
 //@   loop 1 invariant -1 <= rangeindex && rangeindex < len(options)
 //@   loop 1 invariant ctx.PeekingLexer == old(*lex) && ctx.apply == nil && ctx.deepestError == nil && ctx.lookahead == p.useLookahead && ctx.caseInsensitive == p.caseInsensitiveTokens
 //@   loop 1 invariant *lex == old(*lex)
